@@ -79,6 +79,23 @@ func dustSites(o *an.Obl, r *an.Run) {
 		"htlcswitch.dustHelper$1":               "link-level closure; callers pass the HTLC direction explicitly",
 	}
 	counts := map[string][2]int{}
+	// per function: the (chanType, owner, fee rate, dust limit) fingerprints of
+	// its constant-direction sites, and the sense of the test in its loops
+	type fprint struct{ fp, where string }
+	prints := map[string][]fprint{}
+	senses := map[string]string{
+		lw + "LightningChannel.computeView":                 "skip",
+		lw + "CommitmentBuilder.createUnsignedCommitmentTx": "skip",
+		lw + "genRemoteHtlcSigJobs":                         "skip",
+		lw + "LightningChannel.GetDustSum":                  "sum",
+	}
+	// the fee rate of the commitment being classified
+	feeRates := map[string]string{
+		lw + "CommitmentBuilder.createUnsignedCommitmentTx": `^\$p3$`,
+		lw + "genRemoteHtlcSigJobs":                         `^\$p3\.feePerKw$`,
+		lw + "commitment.populateHtlcIndexes$1":             `^\$recv\.feePerKw$`,
+		lw + "LightningChannel.computeView":                 `^\$v:\S*SatPerKWeight$`,
+	}
 	n := 0
 	for _, f := range p.Funcs(false, "lnwallet", "htlcswitch") {
 		for _, s := range f.Calls(an.CalleeIs(lw+"HtlcIsDust"), false) {
@@ -89,6 +106,14 @@ func dustSites(o *an.Obl, r *an.Run) {
 			_ = key
 			hdr := enclosingLoopHeader(f, c)
 			o.Site("%s  [incoming=%s party=%s dust=%s loop=%s]", s.String(), a[1], a[2], a[5], hdr)
+			// (0) the amount is the HTLC's amount in satoshis, the fee rate
+			// that of the commitment
+			if _, ok := passThrough[f.ID]; !ok && !reMatch(`\.(Amount|Amt)\.ToSatoshis\(\)$`, a[4]) {
+				o.FailAt(f.ID+"#dust-amount", s.Where(), "HtlcIsDust must be given the HTLC amount in satoshis (<htlc>.Amount.ToSatoshis()); got %s", a[4])
+			}
+			if re, ok := feeRates[f.ID]; ok && !reMatch(re, a[3]) {
+				o.FailAt(f.ID+"#dust-fee-rate", s.Where(), "HtlcIsDust is given the fee rate %s; %s must classify with /%s/ (the fee rate of the commitment being built)", a[3], f.ID, re)
+			}
 			// (i) direction agrees with the list
 			switch {
 			case a[1] == "false" || a[1] == "true":
@@ -112,6 +137,13 @@ func dustSites(o *an.Obl, r *an.Run) {
 				}
 				if a[1] != want {
 					o.FailAt(f.ID+"#dust-direction", s.Where(), "HtlcIsDust is called with incoming=%s inside a loop over %s, which holds %s HTLCs", a[1], hdr, map[string]string{"false": "outgoing", "true": "incoming"}[want])
+				}
+				if !strings.Contains(hdr, " ; ") && a[4] != "$elem("+hdr+").Amount.ToSatoshis()" {
+					o.FailAt(f.ID+"#dust-amount-element", s.Where(), "inside the loop over %s HtlcIsDust classifies %s, not the amount of the loop's element", hdr, a[4])
+				}
+				prints[f.Root().ID] = append(prints[f.Root().ID], fprint{a[0] + " | " + a[2] + " | " + a[3] + " | " + a[5], s.Where()})
+				if sense, ok := senses[f.ID]; ok {
+					c01DustPolarity(o, f, s, sense)
 				}
 				cnt := counts[f.Root().ID]
 				if want == "false" {
@@ -166,6 +198,16 @@ func dustSites(o *an.Obl, r *an.Run) {
 			o.FailAt(fn+"#dust-loop-count", "", "%s: expected %d outgoing-list and %d incoming-list dust tests, found %v", fn, want[0], want[1], counts[fn])
 		}
 	}
+	for fn, ps := range prints {
+		for _, pr := range ps[1:] {
+			if pr.fp != ps[0].fp {
+				o.FailAt(fn+"#dust-fingerprint", pr.where, "%s: the dust tests of one commitment disagree on (chanType | owner | fee rate | dust limit): %s at %s vs %s", fn, ps[0].fp, ps[0].where, pr.fp)
+			}
+		}
+	}
+	c01DustBody(o, p)
+	c01ComputeViewFeeRate(o, p)
+	c01AddHtlcDirections(o, p)
 	// pass-through callers
 	f := p.Func(lw + "commitment.populateHtlcIndexes")
 	info := f.Info()
@@ -245,6 +287,9 @@ func dustSites(o *an.Obl, r *an.Run) {
 			o.Site("extractHtlcResolutions caller %s (%s, %s)", s.String(), a[5], a[6])
 			if !strings.Contains(a[5], "LocalChanCfg") && !reMatch(`^\$p\d+$`, a[5]) || strings.Contains(a[5], "RemoteChanCfg") {
 				o.FailAt(fn.ID+"#extractHtlcResolutions-cfg-order", s.Where(), "extractHtlcResolutions must receive (localChanCfg, remoteChanCfg); got (%s, %s)", a[5], a[6])
+			}
+			if a[6] == a[5] || an.Swap(a[5], [][2]string{{"LocalChanCfg", "RemoteChanCfg"}}) != a[6] && !reMatch(`^\$p\d+$`, a[6]) {
+				o.FailAt(fn.ID+"#extractHtlcResolutions-remote-cfg", s.Where(), "extractHtlcResolutions must receive the remote config of the same channel as its seventh argument; got (%s, %s)", a[5], a[6])
 			}
 		}
 		for _, s := range fn.Calls(an.CalleeIs(lw+"LightningChannel.logUpdateToPayDesc"), false) {
